@@ -201,7 +201,7 @@ class C14(Check):
             n = rng.choice(NAMES)
             pool.append((d + '/' + n) if d else n)
         pool = sorted(set(pool))
-        # a path cannot be both a file and a directory
+        # (within one root) a path cannot be both a file and a directory
         pool = [p for p in pool if not any(q.startswith(p + '/') for q in pool)]
         for r in rnames:
             files = []
@@ -219,6 +219,14 @@ class C14(Check):
             if not files:
                 files.append({'rel': 'a.txt', 'kind': 'text', 'mtime_off': -100})
             roots[r] = files
+        if nroots >= 2 and rng.random() < 0.35:
+            # an EARLIER root has a directory where a LATER root has a regular file of the same name
+            later_r = rng.choice(rnames[1:])
+            f = rng.choice(roots[later_r])
+            earlier = rnames[rng.randrange(rnames.index(later_r))]
+            if not any(g['rel'] == f['rel'] or g['rel'].startswith(f['rel'] + '/') or f['rel'].startswith(g['rel'] + '/')
+                       for g in roots[earlier]):
+                roots[earlier].append({'rel': f['rel'] + '/inside.txt', 'kind': 'text', 'mtime_off': -77})
         if nroots >= 2 and rng.random() < 0.6:
             k = rng.randint(1, nroots - 1)
             apps = [rnames[:k], rnames[k:]]
